@@ -11,6 +11,7 @@ EXPLANATION = (
     "except the tag; (3) FRAMING — the MAC input is injective: no two variable-length operands adjacent without a length, "
     "Option presence encoded; (4) ALLOC-BOUND — buffer sizes taken from file bytes are bounded before allocating; (5) "
     "REPORTED — every skip of a bad record passes through the failure counter."
+    ' ALLOC-BOUND is closed-world: every allocation-sizing call of the module (with_capacity, reserve, resize, vec![..; n]) whose size is not a constant / an in-memory length / the file size must be bounded, the sizing value being the size expression itself.'
 )
 NOT_DECIDED = "arbitrary corruption patterns and their interaction with postcard framing; the MAC and hash primitives themselves"
 ASSUMPTIONS = ["HMAC-SHA256 / SHA-256 from the hmac/sha2 crates are correct", "postcard::from_bytes rejects malformed encodings"]
